@@ -10,5 +10,7 @@ INVARIANT LawBands
 INVARIANT LawCompass
 INVARIANT LawDecider
 INVARIANT LawTraj
+INVARIANT LawMoved
+INVARIANT LawMovedOri
 PROPERTY Monotone
 PROPERTY TurnInv
